@@ -164,7 +164,15 @@ class Kernel:
 
     # ---- logging (never draws a choice, never reads a real clock) -------------------
     def norm_path(self, path):
-        s = os.fspath(path) if not isinstance(path, (int,)) else f'fd{path}'
+        if isinstance(path, int):
+            # a descriptor (os.listdir(fd), os.stat(fd) - shutil.rmtree works that way): its number depends on what else the
+            # process happens to have open, the file it names does not
+            try:
+                s = os.readlink(f'/proc/self/fd/{path}')
+            except OSError:
+                s = 'fd'
+        else:
+            s = os.fspath(path)
         if isinstance(s, bytes):
             s = s.decode('utf-8', 'replace')
         if not os.path.isabs(s):
@@ -1691,7 +1699,28 @@ def install():
     _real['Popen.__init__'] = subprocess.Popen.__init__
 
     def popen_init(self, *a, **kw):
-        if cur() is not None:
+        p = cur()
+        if p is not None:
+            argv = a[0] if a else kw.get('args')
+            for h in POPEN_HANDLERS:
+                rc = h(p, argv, kw)
+                if rc is not None:
+                    # a child program the simulation has a model for: it ran to completion as one step of the calling process
+                    # (spawn + wait; it touches only the files named on its command line)
+                    self.args = argv
+                    self.returncode = rc
+                    self.pid = p.kernel.alloc_foreign_pid() if hasattr(p.kernel, 'alloc_foreign_pid') else 0
+                    self.stdin = self.stdout = self.stderr = None
+                    self._child_created = False
+                    self._closed_child_pipe_fds = True
+                    self._waitpid_lock = threading.Lock()
+                    self._sigint_wait_secs = 0.25
+                    self._communication_started = False
+                    self._input = None
+                    self.text_mode = self.encoding = self.errors = None
+                    self.pipesize = -1
+                    self.process_group = None
+                    return None
             raise SimFatal('unmodelled_concurrency', 'subprocess.Popen by a simulated process')
         return _real['Popen.__init__'](self, *a, **kw)
     subprocess.Popen.__init__ = popen_init
@@ -1823,6 +1852,10 @@ def post_import_patch():
             cls._dsim_wrapped = True
     except ImportError:
         pass
+
+
+# callables (proc, argv, popen kwargs) -> exit status, or None when the command line is not theirs
+POPEN_HANDLERS = []
 
 
 class atomic_section:
